@@ -31,6 +31,7 @@ import (
 	"strconv"
 	"strings"
 	"sync"
+	"sync/atomic"
 	"time"
 
 	"github.com/gocql/gocql"
@@ -51,7 +52,11 @@ func isChildOp(op string) bool {
 const (
 	driverTimeout = 20 * time.Second
 	watchdog      = 45 * time.Second
+	slowScenario  = 15 * time.Second
+	maxSlow       = 3 // after that many slow / hung scenarios no further child is started; the case stream is cut there
 )
+
+var slowSeen int32
 
 var (
 	errAuthenticator = errors.New("verif: authenticator failed")
@@ -390,9 +395,16 @@ func childMain(path string) {
 			os.Stderr.Write(buf[:n])
 			os.Exit(3)
 		})
+		start := time.Now()
 		out := runScenario(parseScenario(op))
 		t.Stop()
 		emit("R", out)
+		if time.Since(start) > slowScenario {
+			// nothing in a scenario waits on the unchanged code; a driver that sits out its own time-outs would make
+			// the campaign endless: hand back, the parent limits how many such scenarios it runs
+			emit("Z", "slow")
+			return
+		}
 	}
 }
 
@@ -406,6 +418,7 @@ type raw struct {
 	ev                []string // every event line of the scenario in order (multi-dial scenarios)
 	outcome           string // class of the returned error / "ready"; "" when the process died
 	fatal             string // "crash:<fn>" | "hang:<fn>" when the process died / hung in this scenario
+	slow              bool   // the scenario took longer than slowScenario
 }
 
 var gocqlFrameRe = regexp.MustCompile(`^github\.com/gocql/gocql\.(.+)\(.*\)$`)
@@ -476,7 +489,7 @@ func runChild(ops []string) []raw {
 	runErr := cmd.Run()
 	var res []raw
 	var cur *raw
-	finished := false
+	finished, slowStop := false, false
 	sc := bufio.NewScanner(&stdout)
 	sc.Buffer(make([]byte, 1<<20), 1<<26)
 	for sc.Scan() {
@@ -506,9 +519,15 @@ func runChild(ops []string) []raw {
 		case "R":
 			cur.outcome = p
 			finished = true
+		case "Z":
+			slowStop = true
+			cur.slow = true
 		}
 	}
-	if runErr == nil && len(res) == len(ops) && finished {
+	if runErr == nil && finished && (len(res) == len(ops) || slowStop) {
+		if slowStop {
+			atomic.AddInt32(&slowSeen, 1)
+		}
 		return res
 	}
 	// the process died (or hung) in the scenario that was begun and not finished
@@ -521,6 +540,7 @@ func runChild(ops []string) []raw {
 			panic("c20 child: scenario exceeded the watchdog with no goroutine inside gocql:\n" + se)
 		}
 		cur.fatal = "hang:" + fn
+		atomic.AddInt32(&slowSeen, 1)
 	} else if fn := fatalFrame(se); fn != "" {
 		cur.fatal = "crash:" + fn
 	} else {
@@ -531,10 +551,11 @@ func runChild(ops []string) []raw {
 
 // runScenarios runs all ops in child processes (batched; a batch whose process dies is continued after the fatal
 // scenario in a new process, and the fatal scenario is re-run alone to make sure it is the one that kills).
-func runScenarios(ops []string) []raw {
+func runScenarios(ops []string) ([]raw, []bool) {
 	const batch = 48
 	const workers = 4
 	res := make([]raw, len(ops))
+	answered := make([]bool, len(ops))
 	type job struct{ lo, hi int }
 	jobs := make(chan job)
 	var wg sync.WaitGroup
@@ -544,20 +565,23 @@ func runScenarios(ops []string) []raw {
 			defer wg.Done()
 			for j := range jobs {
 				lo := j.lo
-				for lo < j.hi {
+				for lo < j.hi && atomic.LoadInt32(&slowSeen) < maxSlow {
 					got := runChild(ops[lo:j.hi])
+					if len(got) == 0 {
+						panic("c20 child: no scenario was started")
+					}
 					copy(res[lo:], got)
 					last := lo + len(got) - 1
-					if len(got) > 0 && got[len(got)-1].fatal != "" {
-						if len(got) > 1 { // not alone in its process: confirm in a fresh one
-							alone := runChild(ops[last : last+1])
-							if alone[0].fatal == "" {
-								alone[0].fatal = got[len(got)-1].fatal + "(only-after-other-scenarios)"
-							}
-							res[last] = alone[0]
+					if got[len(got)-1].fatal != "" && len(got) > 1 && !strings.HasPrefix(got[len(got)-1].fatal, "hang:") {
+						// not alone in its process: confirm in a fresh one
+						alone := runChild(ops[last : last+1])
+						if alone[0].fatal == "" {
+							alone[0].fatal = got[len(got)-1].fatal + "(only-after-other-scenarios)"
 						}
-					} else if len(got) != j.hi-lo {
-						panic("c20 child: short result without a fatal scenario")
+						res[last] = alone[0]
+					}
+					for i := lo; i <= last; i++ {
+						answered[i] = true
 					}
 					lo = last + 1
 				}
@@ -573,7 +597,7 @@ func runScenarios(ops []string) []raw {
 	}
 	close(jobs)
 	wg.Wait()
-	return res
+	return res, answered
 }
 
 func list(l []string) string {
